@@ -4,7 +4,7 @@ From Cobweb Require Import Machine.
 From CobwebProofs Require Import ListLemmas.
 
 Definition kview0 (w : world) := (ticket_ctr w, tr_ev w, tr_se w, tr_er w, tr_de w, buffer w, g_prep w, g_claim w).
-Definition kview (w : world) := (kview0 w, g_runs w).
+Definition kview (w : world) := (kview0 w, (g_runs w, g_oruns w)).
 Lemma kview_kview0 w w' : kview w' = kview w -> kview0 w' = kview0 w.
 Proof. unfold kview. intros H. exact (f_equal fst H). Qed.
 
